@@ -275,9 +275,59 @@ def widebad_cases(rng):
             yield 'widebad %d %d %d %x %x' % (b1, b2, br, a, b)
 
 
+CANON_FNS = ['inv_ring', 'inv_mod', 'pow_mod', 'reduce_mod', 'mul_redc', 'root', 'lcm', 'gcd_extended', 'div_ceil', 'div_rem', 'cnmo',
+             'o_add', 'o_sub', 'o_mul', 'o_neg', 'o_pow', 'o_shl', 'o_shr', 'c_add', 'c_sub', 'c_mul', 'c_neg', 'c_pow', 'c_shl',
+             'c_shr', 'c_div', 'c_rem', 's_shl', 's_pow', 'pow', 'shl_op', 'shr_op', 'shl_uint', 'shr_uint', 'from_base_le',
+             'from_base_be', 'from_digits_rt', 'from_str', 'sat_f64', 'wrap_f64', 'sat_f32', 'bits_ops', 'sum_product', 'nt_ops']
+CANON_OPS = {}
+
+
+def canon_cases(rng, tier):
+    """every other producer of the safe API at every width of the grid (non-aligned widths twice): structured operands, small
+    shift / degree / exponent arguments, odd values (inv_ring, Montgomery moduli), float bit patterns around 2^bits"""
+    import struct
+    reps = 3 if tier == 'quick' else 60
+    for bits in WIDTHS + [w for w in WIDTHS if w % 64 != 0]:
+        m = 1 << bits
+        for fn in CANON_FNS:
+            for _ in range(reps):
+                a, b, c = value(rng, bits), value(rng, bits), value(rng, bits)
+                if fn in ('inv_ring', 'mul_redc') and bits:
+                    a |= 1
+                    c |= 1
+                    if fn == 'mul_redc':
+                        a, b = a % c, b % c
+                if fn in ('o_shl', 'o_shr', 'c_shl', 'c_shr', 's_shl', 'shl_op', 'shr_op', 'root', 'bits_ops', 'nt_ops') and bits:
+                    b = rng.choice([0, 1, bits - 1, bits, bits + 1, 63, 64, 65, rng.randrange(2 * bits + 2)]) % m
+                if fn in ('o_pow', 'c_pow', 's_pow', 'pow') and bits:
+                    b = rng.choice([0, 1, 2, 3, bits, rng.randrange(200)]) % m
+                    a = rng.choice([a, 2, 3, m - 1, rng.randrange(1, 1000) % m])
+                if fn in ('from_base_le', 'from_base_be', 'from_digits_rt', 'from_str'):
+                    a = rng.choice([2, 10, 16, 36, 64, 1 << 32, (1 << 64) - 1, rng.getrandbits(64), rng.randrange(2, 100)]) % max(m, 1)
+                    if fn in ('from_base_le', 'from_base_be') and a >= 2:
+                        # digit strings (the limbs of b and c) mostly below the base, with zero tails
+                        nl = nlimbs(bits)
+                        ds = [rng.randrange(a) if rng.random() < 0.9 else rng.getrandbits(64) for _ in range(2 * nl)]
+                        z = rng.randrange(2 * nl + 1)
+                        ds = ds[:z] + [0] * (2 * nl - z) if rng.random() < 0.5 else ds
+                        b = sum(d << (64 * i) for i, d in enumerate(ds[:nl])) % m
+                        c = sum(d << (64 * i) for i, d in enumerate(ds[nl:])) % m
+                if fn in ('sat_f64', 'wrap_f64'):
+                    f = rng.choice([float(m), float(m) - 1.0, float(m) * 0.5, float(rng.getrandbits(53)), 0.49, 0.5, 1.5, float(m) * 2.0,
+                                    float(rng.randrange(m)) if bits <= 1000 else 1e300, -1.0, float('inf'), float('nan')]) if bits <= 1000 else 1e300
+                    a = struct.unpack('<Q', struct.pack('<d', f))[0] % max(m, 1) if bits >= 64 else 0
+                if fn == 'sat_f32':
+                    a = rng.getrandbits(32) % max(m, 1)
+                CANON_OPS[fn] = CANON_OPS.get(fn, 0) + 1
+                yield 'canon %d %s %x %x %x' % (bits, fn, a % max(m, 1), b % max(m, 1), c % max(m, 1))
+
+
 def gen(rng, tier):
     HIST_OPS.clear()
+    CANON_OPS.clear()
     for c in widebad_cases(rng):
+        yield c
+    for c in canon_cases(rng, tier):
         yield c
     for c in _gen(rng, tier):
         if c.startswith('hist '):
